@@ -53,6 +53,18 @@ CHECKS = {
   level="Generated enum programs x configurations x member/non-member values; checks totality, name-driven mapping precedence (map > transformer > name), duplicate handling and the exact unknown policy at run time. Exploration.",
   note="Map iteration order makes the first failing entry of a map unspecified; the oracle accepts any of the failures the reference finds.",
   design="5/C08"),
+ "C10": dict(
+  engine="E-run",
+  technique="property-based testing: rapid update-method programs x rapid (pre-state, source) values; relational oracle per target field (previous value / conversion / either) computed by the reference plan executor",
+  level="Generated programs x configurations x pre-state/source values; the oracle accepts exactly the outcomes the statement allows per field and checks that nothing outside *ARG changes. Exploration.",
+  note="Three open findings are excluded by construction and probed (non-comparable struct zero check, stale nested members, nillable sources converted by calls).",
+  design="5/C10"),
+ "C11": dict(
+  engine="E-run + E-gen",
+  technique="property-based testing: rapid default-constructor and pointer-shape programs executed on rapid values against the reference; generation-outcome differential for the useZeroValueOnPointerInconsistency requirement",
+  level="Generated programs x flag placements x nil/non-nil values; checks FUNC's result for nil sources, replacement vs merge semantics, ignored fields, T->*U / *T->U values and that *T->U needs the flag. Exploration.",
+  note="Trusts the mark functions (deterministic constructors) and the rule model; undocumented zero-value interplay is left open in the oracle.",
+  design="5/C11"),
 }
 
 def main():
